@@ -304,85 +304,85 @@ Ltac cfamily :=
   walk; leaf W.
 
 Lemma cfam_CBC j : well_formed j = true -> dir_ok j -> jv_cipher_mode j = IMB_CIPHER_CBC -> agree (csw j) rules_CBC j.
-Proof. Time cfamily. Qed.
+Proof. cfamily. Qed.
 
 Lemma cfam_CBCS_1_9 j : well_formed j = true -> dir_ok j -> jv_cipher_mode j = IMB_CIPHER_CBCS_1_9 -> agree (csw j) rules_CBCS_1_9 j.
-Proof. Time cfamily. Qed.
+Proof. cfamily. Qed.
 
 Lemma cfam_ECB j : well_formed j = true -> dir_ok j -> jv_cipher_mode j = IMB_CIPHER_ECB -> agree (csw j) rules_ECB j.
-Proof. Time cfamily. Qed.
+Proof. cfamily. Qed.
 
 Lemma cfam_CNTR j : well_formed j = true -> dir_ok j -> jv_cipher_mode j = IMB_CIPHER_CNTR -> agree (csw j) rules_CNTR j.
-Proof. Time cfamily. Qed.
+Proof. cfamily. Qed.
 
 Lemma cfam_CNTR_BITLEN j : well_formed j = true -> dir_ok j -> jv_cipher_mode j = IMB_CIPHER_CNTR_BITLEN -> agree (csw j) rules_CNTR_BITLEN j.
-Proof. Time cfamily. Qed.
+Proof. cfamily. Qed.
 
 Lemma cfam_NULL j : well_formed j = true -> dir_ok j -> jv_cipher_mode j = IMB_CIPHER_NULL -> agree (csw j) rules_NULL j.
-Proof. Time cfamily. Qed.
+Proof. cfamily. Qed.
 
 Lemma cfam_DOCSIS_SEC_BPI j : well_formed j = true -> dir_ok j -> jv_cipher_mode j = IMB_CIPHER_DOCSIS_SEC_BPI -> agree (csw j) rules_DOCSIS_SEC_BPI j.
-Proof. Time cfamily. Qed.
+Proof. cfamily. Qed.
 
 Lemma cfam_GCM j : well_formed j = true -> dir_ok j -> jv_cipher_mode j = IMB_CIPHER_GCM -> agree (csw j) rules_GCM j.
-Proof. Time cfamily. Qed.
+Proof. cfamily. Qed.
 
 Lemma cfam_SM4_GCM j : well_formed j = true -> dir_ok j -> jv_cipher_mode j = IMB_CIPHER_SM4_GCM -> agree (csw j) rules_SM4_GCM j.
-Proof. Time cfamily. Qed.
+Proof. cfamily. Qed.
 
 Lemma cfam_CUSTOM j : well_formed j = true -> dir_ok j -> jv_cipher_mode j = IMB_CIPHER_CUSTOM -> agree (csw j) rules_CUSTOM j.
-Proof. Time cfamily. Qed.
+Proof. cfamily. Qed.
 
 Lemma cfam_DES j : well_formed j = true -> dir_ok j -> jv_cipher_mode j = IMB_CIPHER_DES -> agree (csw j) rules_DES j.
-Proof. Time cfamily. Qed.
+Proof. cfamily. Qed.
 
 Lemma cfam_DOCSIS_DES j : well_formed j = true -> dir_ok j -> jv_cipher_mode j = IMB_CIPHER_DOCSIS_DES -> agree (csw j) rules_DOCSIS_DES j.
-Proof. Time cfamily. Qed.
+Proof. cfamily. Qed.
 
 Lemma cfam_CCM j : well_formed j = true -> dir_ok j -> jv_cipher_mode j = IMB_CIPHER_CCM -> agree (csw j) rules_CCM j.
-Proof. Time cfamily. Qed.
+Proof. cfamily. Qed.
 
 Lemma cfam_DES3 j : well_formed j = true -> dir_ok j -> jv_cipher_mode j = IMB_CIPHER_DES3 -> agree (csw j) rules_DES3 j.
-Proof. Time cfamily. Qed.
+Proof. cfamily. Qed.
 
 Lemma cfam_PON j : well_formed j = true -> dir_ok j -> jv_cipher_mode j = IMB_CIPHER_PON_AES_CNTR -> agree (csw j) rules_PON j.
-Proof. Time cfamily. Qed.
+Proof. cfamily. Qed.
 
 (* ZUC: the IV rule depends on the key length the checker sees, i.e. on the TRUNCATED value: the
    errno is only guaranteed to name a violated rule when the 64-bit key length fits 32 bits (D2) *)
 Lemma cfam_ZUC_EEA3 j : disc_D2_key_len_truncated j = false ->
   well_formed j = true -> dir_ok j -> jv_cipher_mode j = IMB_CIPHER_ZUC_EEA3 -> agree (csw j) rules_ZUC_EEA3 j.
-Proof. intros HD2; unfold disc_D2_key_len_truncated in HD2. Time cfamily. Qed.
+Proof. intros HD2; unfold disc_D2_key_len_truncated in HD2. cfamily. Qed.
 
 Lemma cfam_SNOW3G_UEA2 j : well_formed j = true -> dir_ok j -> jv_cipher_mode j = IMB_CIPHER_SNOW3G_UEA2_BITLEN -> agree (csw j) rules_SNOW3G_UEA2 j.
-Proof. Time cfamily. Qed.
+Proof. cfamily. Qed.
 
 Lemma cfam_KASUMI_UEA1 j : well_formed j = true -> dir_ok j -> jv_cipher_mode j = IMB_CIPHER_KASUMI_UEA1_BITLEN -> agree (csw j) rules_KASUMI_UEA1 j.
-Proof. Time cfamily. Qed.
+Proof. cfamily. Qed.
 
 Lemma cfam_CHACHA20 j : well_formed j = true -> dir_ok j -> jv_cipher_mode j = IMB_CIPHER_CHACHA20 -> agree (csw j) rules_CHACHA20 j.
-Proof. Time cfamily. Qed.
+Proof. cfamily. Qed.
 
 Lemma cfam_CHACHA20_POLY1305 j : well_formed j = true -> dir_ok j -> jv_cipher_mode j = IMB_CIPHER_CHACHA20_POLY1305 -> agree (csw j) rules_CHACHA20_POLY1305 j.
-Proof. Time cfamily. Qed.
+Proof. cfamily. Qed.
 
 Lemma cfam_SNOW_V j : well_formed j = true -> dir_ok j -> jv_cipher_mode j = IMB_CIPHER_SNOW_V -> agree (csw j) rules_SNOW_V j.
-Proof. Time cfamily. Qed.
+Proof. cfamily. Qed.
 
 Lemma cfam_SNOW_V_AEAD j : well_formed j = true -> dir_ok j -> jv_cipher_mode j = IMB_CIPHER_SNOW_V_AEAD -> agree (csw j) rules_SNOW_V_AEAD j.
-Proof. Time cfamily. Qed.
+Proof. cfamily. Qed.
 
 Lemma cfam_SM4_ECB j : well_formed j = true -> dir_ok j -> jv_cipher_mode j = IMB_CIPHER_SM4_ECB -> agree (csw j) rules_SM4_ECB j.
-Proof. Time cfamily. Qed.
+Proof. cfamily. Qed.
 
 Lemma cfam_SM4_CBC j : well_formed j = true -> dir_ok j -> jv_cipher_mode j = IMB_CIPHER_SM4_CBC -> agree (csw j) rules_SM4_CBC j.
-Proof. Time cfamily. Qed.
+Proof. cfamily. Qed.
 
 Lemma cfam_SM4_CNTR j : well_formed j = true -> dir_ok j -> jv_cipher_mode j = IMB_CIPHER_SM4_CNTR -> agree (csw j) rules_SM4_CNTR j.
-Proof. Time cfamily. Qed.
+Proof. cfamily. Qed.
 
 Lemma cfam_CFB j : well_formed j = true -> dir_ok j -> jv_cipher_mode j = IMB_CIPHER_CFB -> agree (csw j) rules_CFB j.
-Proof. Time cfamily. Qed.
+Proof. cfamily. Qed.
 
 (* ------------------------------------------------------------------------------------------ *)
 (* hash-algorithm families                                                                     *)
@@ -398,146 +398,895 @@ Ltac hfamily :=
   walk; leaf W.
 
 Lemma hfam_HMAC_SHA_1 j : well_formed j = true -> cipher_passed j -> jv_hash_alg j = IMB_AUTH_HMAC_SHA_1 -> agree (hsw j) (rules_HMAC 12 20) j.
-Proof. Time hfamily. Qed.
+Proof. hfamily. Qed.
 
 Lemma hfam_HMAC_SHA_224 j : well_formed j = true -> cipher_passed j -> jv_hash_alg j = IMB_AUTH_HMAC_SHA_224 -> agree (hsw j) (rules_HMAC 14 28) j.
-Proof. Time hfamily. Qed.
+Proof. hfamily. Qed.
 
 Lemma hfam_HMAC_SHA_256 j : well_formed j = true -> cipher_passed j -> jv_hash_alg j = IMB_AUTH_HMAC_SHA_256 -> agree (hsw j) (rules_HMAC 16 32) j.
-Proof. Time hfamily. Qed.
+Proof. hfamily. Qed.
 
 Lemma hfam_HMAC_SHA_384 j : well_formed j = true -> cipher_passed j -> jv_hash_alg j = IMB_AUTH_HMAC_SHA_384 -> agree (hsw j) (rules_HMAC 24 48) j.
-Proof. Time hfamily. Qed.
+Proof. hfamily. Qed.
 
 Lemma hfam_HMAC_SHA_512 j : well_formed j = true -> cipher_passed j -> jv_hash_alg j = IMB_AUTH_HMAC_SHA_512 -> agree (hsw j) (rules_HMAC 32 64) j.
-Proof. Time hfamily. Qed.
+Proof. hfamily. Qed.
 
 Lemma hfam_AES_XCBC j : well_formed j = true -> cipher_passed j -> jv_hash_alg j = IMB_AUTH_AES_XCBC -> agree (hsw j) (rules_XCBC) j.
-Proof. Time hfamily. Qed.
+Proof. hfamily. Qed.
 
 Lemma hfam_MD5 j : well_formed j = true -> cipher_passed j -> jv_hash_alg j = IMB_AUTH_MD5 -> agree (hsw j) (rules_HMAC 12 16) j.
-Proof. Time hfamily. Qed.
+Proof. hfamily. Qed.
 
 Lemma hfam_NULL j : well_formed j = true -> cipher_passed j -> jv_hash_alg j = IMB_AUTH_NULL -> agree (hsw j) (rules_AUTH_NULL) j.
-Proof. Time hfamily. Qed.
+Proof. hfamily. Qed.
 
 Lemma hfam_AES_GMAC j : well_formed j = true -> cipher_passed j -> jv_hash_alg j = IMB_AUTH_AES_GMAC -> agree (hsw j) (rules_AES_GMAC) j.
-Proof. Time hfamily. Qed.
+Proof. hfamily. Qed.
 
 Lemma hfam_CUSTOM j : well_formed j = true -> cipher_passed j -> jv_hash_alg j = IMB_AUTH_CUSTOM -> agree (hsw j) (rules_AUTH_CUSTOM) j.
-Proof. Time hfamily. Qed.
+Proof. hfamily. Qed.
 
 Lemma hfam_AES_CCM j : well_formed j = true -> cipher_passed j -> jv_hash_alg j = IMB_AUTH_AES_CCM -> agree (hsw j) (rules_AES_CCM) j.
-Proof. Time hfamily. Qed.
+Proof. hfamily. Qed.
 
 Lemma hfam_AES_CMAC j : well_formed j = true -> cipher_passed j -> jv_hash_alg j = IMB_AUTH_AES_CMAC -> agree (hsw j) (rules_CMAC) j.
-Proof. Time hfamily. Qed.
+Proof. hfamily. Qed.
 
 Lemma hfam_SHA_1 j : well_formed j = true -> cipher_passed j -> jv_hash_alg j = IMB_AUTH_SHA_1 -> agree (hsw j) (rules_SHA 20) j.
-Proof. Time hfamily. Qed.
+Proof. hfamily. Qed.
 
 Lemma hfam_SHA_224 j : well_formed j = true -> cipher_passed j -> jv_hash_alg j = IMB_AUTH_SHA_224 -> agree (hsw j) (rules_SHA 28) j.
-Proof. Time hfamily. Qed.
+Proof. hfamily. Qed.
 
 Lemma hfam_SHA_256 j : well_formed j = true -> cipher_passed j -> jv_hash_alg j = IMB_AUTH_SHA_256 -> agree (hsw j) (rules_SHA 32) j.
-Proof. Time hfamily. Qed.
+Proof. hfamily. Qed.
 
 Lemma hfam_SHA_384 j : well_formed j = true -> cipher_passed j -> jv_hash_alg j = IMB_AUTH_SHA_384 -> agree (hsw j) (rules_SHA 48) j.
-Proof. Time hfamily. Qed.
+Proof. hfamily. Qed.
 
 Lemma hfam_SHA_512 j : well_formed j = true -> cipher_passed j -> jv_hash_alg j = IMB_AUTH_SHA_512 -> agree (hsw j) (rules_SHA 64) j.
-Proof. Time hfamily. Qed.
+Proof. hfamily. Qed.
 
 Lemma hfam_AES_CMAC_BITLEN j : well_formed j = true -> cipher_passed j -> jv_hash_alg j = IMB_AUTH_AES_CMAC_BITLEN -> agree (hsw j) (rules_CMAC_BITLEN) j.
-Proof. Time hfamily. Qed.
+Proof. hfamily. Qed.
 
 Lemma hfam_PON_CRC_BIP j : well_formed j = true -> cipher_passed j -> jv_hash_alg j = IMB_AUTH_PON_CRC_BIP -> agree (hsw j) (rules_PON_CRC_BIP) j.
-Proof. Time hfamily. Qed.
+Proof. hfamily. Qed.
 
 Lemma hfam_ZUC_EIA3_BITLEN j : well_formed j = true -> cipher_passed j -> jv_hash_alg j = IMB_AUTH_ZUC_EIA3_BITLEN -> agree (hsw j) (rules_ZUC_EIA3) j.
-Proof. Time hfamily. Qed.
+Proof. hfamily. Qed.
 
 Lemma hfam_SNOW3G_UIA2_BITLEN j : well_formed j = true -> cipher_passed j -> jv_hash_alg j = IMB_AUTH_SNOW3G_UIA2_BITLEN -> agree (hsw j) (rules_SNOW3G_UIA2) j.
-Proof. Time hfamily. Qed.
+Proof. hfamily. Qed.
 
 Lemma hfam_KASUMI_UIA1 j : well_formed j = true -> cipher_passed j -> jv_hash_alg j = IMB_AUTH_KASUMI_UIA1 -> agree (hsw j) (rules_KASUMI_UIA1) j.
-Proof. Time hfamily. Qed.
+Proof. hfamily. Qed.
 
 Lemma hfam_AES_GMAC_128 j : well_formed j = true -> cipher_passed j -> jv_hash_alg j = IMB_AUTH_AES_GMAC_128 -> agree (hsw j) (rules_GMAC_STANDALONE) j.
-Proof. Time hfamily. Qed.
+Proof. hfamily. Qed.
 
 Lemma hfam_AES_GMAC_192 j : well_formed j = true -> cipher_passed j -> jv_hash_alg j = IMB_AUTH_AES_GMAC_192 -> agree (hsw j) (rules_GMAC_STANDALONE) j.
-Proof. Time hfamily. Qed.
+Proof. hfamily. Qed.
 
 Lemma hfam_AES_GMAC_256 j : well_formed j = true -> cipher_passed j -> jv_hash_alg j = IMB_AUTH_AES_GMAC_256 -> agree (hsw j) (rules_GMAC_STANDALONE) j.
-Proof. Time hfamily. Qed.
+Proof. hfamily. Qed.
 
 Lemma hfam_AES_CMAC_256 j : well_formed j = true -> cipher_passed j -> jv_hash_alg j = IMB_AUTH_AES_CMAC_256 -> agree (hsw j) (rules_CMAC) j.
-Proof. Time hfamily. Qed.
+Proof. hfamily. Qed.
 
 Lemma hfam_POLY1305 j : well_formed j = true -> cipher_passed j -> jv_hash_alg j = IMB_AUTH_POLY1305 -> agree (hsw j) (rules_POLY1305) j.
-Proof. Time hfamily. Qed.
+Proof. hfamily. Qed.
 
 Lemma hfam_CHACHA20_POLY1305 j : well_formed j = true -> cipher_passed j -> jv_hash_alg j = IMB_AUTH_CHACHA20_POLY1305 -> agree (hsw j) (rules_CHACHA20_POLY1305_HASH) j.
-Proof. Time hfamily. Qed.
+Proof. hfamily. Qed.
 
 Lemma hfam_CHACHA20_POLY1305_SGL j : well_formed j = true -> cipher_passed j -> jv_hash_alg j = IMB_AUTH_CHACHA20_POLY1305_SGL -> agree (hsw j) (rules_CHACHA20_POLY1305_SGL_HASH) j.
-Proof. Time hfamily. Qed.
+Proof. hfamily. Qed.
 
 Lemma hfam_ZUC256_EIA3_BITLEN j : well_formed j = true -> cipher_passed j -> jv_hash_alg j = IMB_AUTH_ZUC256_EIA3_BITLEN -> agree (hsw j) (rules_ZUC256_EIA3) j.
-Proof. Time hfamily. Qed.
+Proof. hfamily. Qed.
 
 Lemma hfam_SNOW_V_AEAD j : well_formed j = true -> cipher_passed j -> jv_hash_alg j = IMB_AUTH_SNOW_V_AEAD -> agree (hsw j) (rules_SNOW_V_AEAD_HASH) j.
-Proof. Time hfamily. Qed.
+Proof. hfamily. Qed.
 
 Lemma hfam_GCM_SGL j : well_formed j = true -> cipher_passed j -> jv_hash_alg j = IMB_AUTH_GCM_SGL -> agree (hsw j) (rules_GCM_SGL_HASH) j.
-Proof. Time hfamily. Qed.
+Proof. hfamily. Qed.
 
 Lemma hfam_CRC32_ETHERNET_FCS j : well_formed j = true -> cipher_passed j -> jv_hash_alg j = IMB_AUTH_CRC32_ETHERNET_FCS -> agree (hsw j) (rules_CRC) j.
-Proof. Time hfamily. Qed.
+Proof. hfamily. Qed.
 
 Lemma hfam_CRC32_SCTP j : well_formed j = true -> cipher_passed j -> jv_hash_alg j = IMB_AUTH_CRC32_SCTP -> agree (hsw j) (rules_CRC) j.
-Proof. Time hfamily. Qed.
+Proof. hfamily. Qed.
 
 Lemma hfam_CRC32_WIMAX_OFDMA_DATA j : well_formed j = true -> cipher_passed j -> jv_hash_alg j = IMB_AUTH_CRC32_WIMAX_OFDMA_DATA -> agree (hsw j) (rules_CRC) j.
-Proof. Time hfamily. Qed.
+Proof. hfamily. Qed.
 
 Lemma hfam_CRC24_LTE_A j : well_formed j = true -> cipher_passed j -> jv_hash_alg j = IMB_AUTH_CRC24_LTE_A -> agree (hsw j) (rules_CRC) j.
-Proof. Time hfamily. Qed.
+Proof. hfamily. Qed.
 
 Lemma hfam_CRC24_LTE_B j : well_formed j = true -> cipher_passed j -> jv_hash_alg j = IMB_AUTH_CRC24_LTE_B -> agree (hsw j) (rules_CRC) j.
-Proof. Time hfamily. Qed.
+Proof. hfamily. Qed.
 
 Lemma hfam_CRC16_X25 j : well_formed j = true -> cipher_passed j -> jv_hash_alg j = IMB_AUTH_CRC16_X25 -> agree (hsw j) (rules_CRC) j.
-Proof. Time hfamily. Qed.
+Proof. hfamily. Qed.
 
 Lemma hfam_CRC16_FP_DATA j : well_formed j = true -> cipher_passed j -> jv_hash_alg j = IMB_AUTH_CRC16_FP_DATA -> agree (hsw j) (rules_CRC) j.
-Proof. Time hfamily. Qed.
+Proof. hfamily. Qed.
 
 Lemma hfam_CRC11_FP_HEADER j : well_formed j = true -> cipher_passed j -> jv_hash_alg j = IMB_AUTH_CRC11_FP_HEADER -> agree (hsw j) (rules_CRC) j.
-Proof. Time hfamily. Qed.
+Proof. hfamily. Qed.
 
 Lemma hfam_CRC10_IUUP_DATA j : well_formed j = true -> cipher_passed j -> jv_hash_alg j = IMB_AUTH_CRC10_IUUP_DATA -> agree (hsw j) (rules_CRC) j.
-Proof. Time hfamily. Qed.
+Proof. hfamily. Qed.
 
 Lemma hfam_CRC8_WIMAX_OFDMA_HCS j : well_formed j = true -> cipher_passed j -> jv_hash_alg j = IMB_AUTH_CRC8_WIMAX_OFDMA_HCS -> agree (hsw j) (rules_CRC) j.
-Proof. Time hfamily. Qed.
+Proof. hfamily. Qed.
 
 Lemma hfam_CRC7_FP_HEADER j : well_formed j = true -> cipher_passed j -> jv_hash_alg j = IMB_AUTH_CRC7_FP_HEADER -> agree (hsw j) (rules_CRC) j.
-Proof. Time hfamily. Qed.
+Proof. hfamily. Qed.
 
 Lemma hfam_CRC6_IUUP_HEADER j : well_formed j = true -> cipher_passed j -> jv_hash_alg j = IMB_AUTH_CRC6_IUUP_HEADER -> agree (hsw j) (rules_CRC) j.
-Proof. Time hfamily. Qed.
+Proof. hfamily. Qed.
 
 Lemma hfam_GHASH j : well_formed j = true -> cipher_passed j -> jv_hash_alg j = IMB_AUTH_GHASH -> agree (hsw j) (rules_GHASH) j.
-Proof. Time hfamily. Qed.
+Proof. hfamily. Qed.
 
 Lemma hfam_SM3 j : well_formed j = true -> cipher_passed j -> jv_hash_alg j = IMB_AUTH_SM3 -> agree (hsw j) (rules_SM3) j.
-Proof. Time hfamily. Qed.
+Proof. hfamily. Qed.
 
 Lemma hfam_HMAC_SM3 j : well_formed j = true -> cipher_passed j -> jv_hash_alg j = IMB_AUTH_HMAC_SM3 -> agree (hsw j) (rules_HMAC_SM3) j.
-Proof. Time hfamily. Qed.
+Proof. hfamily. Qed.
 
 Lemma hfam_SM4_GCM j : well_formed j = true -> cipher_passed j -> jv_hash_alg j = IMB_AUTH_SM4_GCM -> agree (hsw j) (rules_SM4_GCM_HASH) j.
-Proof. Time hfamily. Qed.
+Proof. hfamily. Qed.
 
+(* ------------------------------------------------------------------------------------------ *)
+(* the SGL segment loops                                                                       *)
+(* ------------------------------------------------------------------------------------------ *)
+(* what one run of the generated loop function establishes, for a segment list that is the tail
+   (from index i) of an array of [jv_dst j] segments lying inside the address space *)
+Definition loop_post (j : job_view) (segs : list sgl_seg) (i t : N) (res : option N * N) : Prop :=
+  match res with
+  | (None, t') =>
+      forallb seg_in_ok segs = true /\ forallb seg_out_ok segs = true /\
+      t' = (t + sgl_total segs) mod 18446744073709551616 /\
+      (N.of_nat (length segs) <> 0 -> jv_src j + 24 * i <> 0)
+  | (Some e, _) =>
+      (e = IMB_ERR_JOB_NULL_SRC /\
+       ((jv_src j + 24 * i = 0 /\ N.of_nat (length segs) <> 0) \/ forallb seg_in_ok segs = false)) \/
+      (e = IMB_ERR_JOB_NULL_DST /\ forallb seg_out_ok segs = false)
+  end.
+
+Lemma add64_small a b : a + b < 18446744073709551616 -> add64 a b = a + b.
+Proof. intros. unfold add64, w64, mask64. rewrite land_m64. apply N.mod_small. assumption. Qed.
+Lemma mul64_small a b : a * b < 18446744073709551616 -> mul64 a b = a * b.
+Proof. intros. unfold mul64, w64, mask64. rewrite land_m64. apply N.mod_small. assumption. Qed.
+Lemma add64_mod a b : add64 a b = (a + b) mod 18446744073709551616.
+Proof. unfold add64, w64, mask64. apply land_m64. Qed.
+
+Ltac loop_proof L :=
+  intros j cm ha cd kl segs; induction segs as [|s segs IH]; intros i t Hlen Harr Hsegs Ht;
+  [ cbn [length] in Hlen; cbn [L];
+    replace (i <? jv_dst j) with false by (symmetry; apply N.ltb_ge; lia);
+    unfold loop_post; cbn [forallb sgl_total fold_right length]; repeat split; try lia;
+    rewrite N.add_0_r, N.mod_small by lia; reflexivity
+  | cbn [length] in Hlen; cbn [L];
+    replace (i <? jv_dst j) with true by (symmetry; apply N.ltb_lt; lia);
+    cbn [forallb] in Hsegs; apply andb_true_iff in Hsegs; destruct Hsegs as [Hs Hsegs];
+    unfold seg_ok, u64_ok in Hs; cbv zeta;
+    rewrite (mul64_small i 24) by lia; rewrite (add64_small (jv_src j)) by lia;
+    replace (i * 24) with (24 * i) by lia;
+    destruct (jv_src j + 24 * i =? 0) eqn:E0;
+    [ unfold loop_post; left; split; [reflexivity|]; left; cbn [length]; split; lia |];
+    destruct (negb (seg_len s =? 0) && (seg_in s =? 0)) eqn:E1;
+    [ unfold loop_post; left; split; [reflexivity|]; right; cbn [forallb]; unfold seg_in_ok at 1; lia |];
+    destruct (negb (seg_len s =? 0) && (seg_out s =? 0)) eqn:E2;
+    [ unfold loop_post; right; split; [reflexivity|]; cbn [forallb]; unfold seg_out_ok at 1; lia |];
+    rewrite (add64_small i 1) by lia;
+    assert (Ht' : add64 t (seg_len s) < 18446744073709551616) by (rewrite add64_mod; apply N.mod_lt; discriminate);
+    specialize (IH (i + 1) (add64 t (seg_len s)) ltac:(lia) Harr Hsegs Ht');
+    destruct (L j cm ha cd kl segs (i + 1) (add64 t (seg_len s))) as [[e|] t'];
+    unfold loop_post in *;
+    [ destruct IH as [[He [[Hz _]|Hin]]|[He Hout]];
+      [ lia
+      | left; split; [exact He|]; right; cbn [forallb]; rewrite Hin; apply andb_false_r
+      | right; split; [exact He|]; cbn [forallb]; rewrite Hout; apply andb_false_r ]
+    | destruct IH as (Hin & Hout & Htot & _); repeat split;
+      [ cbn [forallb]; rewrite Hin; unfold seg_in_ok; lia
+      | cbn [forallb]; rewrite Hout; unfold seg_out_ok; lia
+      | rewrite Htot; rewrite add64_mod; rewrite N.add_mod_idemp_l by discriminate;
+        cbn [sgl_total fold_right]; f_equal; fold (sgl_total segs); lia
+      | intros _; lia ] ] ].
+
+Lemma loop1_spec : forall j cm ha cd kl segs i t,
+  N.of_nat (length segs) + i = jv_dst j -> jv_src j + 24 * jv_dst j < 18446744073709551616 ->
+  forallb seg_ok segs = true -> t < 18446744073709551616 ->
+  loop_post j segs i t (is_job_invalid_for1 j cm ha cd kl segs i t).
+Proof. loop_proof is_job_invalid_for1. Qed.
+Lemma loop2_spec : forall j cm ha cd kl segs i t,
+  N.of_nat (length segs) + i = jv_dst j -> jv_src j + 24 * jv_dst j < 18446744073709551616 ->
+  forallb seg_ok segs = true -> t < 18446744073709551616 ->
+  loop_post j segs i t (is_job_invalid_for2 j cm ha cd kl segs i t).
+Proof. loop_proof is_job_invalid_for2. Qed.
+
+(* an SGL family: walk to the loop, replace the loop by its post-condition, continue *)
+Ltac sgl_loop Hwf Hcm W :=
+  lazymatch goal with
+  | |- agree (oseq (let '(_, _) := ?L ?j ?cm ?ha ?cd ?kl ?segs 0 0 in _) _) _ _ =>
+      let HU := fresh "HU" in let HV := fresh "HV" in let HV1 := fresh "HV1" in let HV2 := fresh "HV2" in
+      let HL := fresh "HL" in
+      assert (HU : uses_sgl_array j = true) by (unfold uses_sgl_array; rewrite Hcm; gen_enums_unfold; lia);
+      pose proof (wf_sgl _ Hwf HU) as HV; unfold sgl_view_ok, jv_sgl_io_segs, jv_num_sgl_io_segs in HV;
+      apply andb_true_iff in HV; destruct HV as [HV1 HV2]; apply N.eqb_eq in HV1; apply N.ltb_lt in HV2;
+      lazymatch L with
+      | is_job_invalid_for1 => pose proof (loop1_spec j cm ha cd kl segs 0 0 ltac:(lia) HV2 (wd_segs _ W) ltac:(lia)) as HL
+      | is_job_invalid_for2 => pose proof (loop2_spec j cm ha cd kl segs 0 0 ltac:(lia) HV2 (wd_segs _ W) ltac:(lia)) as HL
+      end;
+      unfold loop_post in HL; revert HL;
+      destruct (L j cm ha cd kl segs 0 0) as [[e|] tot]; cbv beta iota; intros HL;
+      [ destruct HL as [[He HL]|[He HL]]; subst e | destruct HL as (HLin & HLout & HLtot & HLnz) ]
+  end.
+
+Ltac cfamily_sgl :=
+  let W := fresh "W" in
+  intros Hwf Hdir Hcm; pose proof (wf_widths _ Hwf) as W; unfold dir_ok in Hdir;
+  unfold csw; rewrite ?Hcm; cbv beta zeta delta [is_job_invalid_sw1]; norm_arith; gen_enums_unfold;
+  walk; try sgl_loop Hwf Hcm W; gen_enums_unfold; walk; leaf W.
+
+Lemma cfam_GCM_SGL j : well_formed j = true -> dir_ok j -> jv_cipher_mode j = IMB_CIPHER_GCM_SGL -> agree (csw j) rules_GCM_SGL j.
+Proof. cfamily_sgl. Qed.
+Lemma cfam_CHACHA20_POLY1305_SGL j : well_formed j = true -> dir_ok j -> jv_cipher_mode j = IMB_CIPHER_CHACHA20_POLY1305_SGL ->
+  agree (csw j) rules_CHACHA20_POLY1305_SGL j.
+Proof. cfamily_sgl. Qed.
+
+(* DOCSIS CRC32: the only hash family that needs to know that the cipher switch fell through
+   (msg_len_to_cipher <= 65534, so that msg_len_to_cipher + 8 cannot wrap) *)
+Lemma hfam_DOCSIS_CRC32 j : well_formed j = true -> cipher_passed j -> jv_hash_alg j = IMB_AUTH_DOCSIS_CRC32 ->
+  agree (hsw j) rules_DOCSIS_CRC32 j.
+Proof.
+  intros Hwf Hc Hha; pose proof (wf_widths _ Hwf) as W;
+  unfold hsw; rewrite ?Hha; cbv beta zeta delta [is_job_invalid_sw2]; norm_arith; gen_enums_unfold;
+  walk.
+  all: try (leaf W).
+  (* the accepting leaf with both lengths non-zero *)
+  unfold agree; intros Hout; pose proof (Hc Hout) as Hcr.
+  assert (Hcm : jv_cipher_mode j = IMB_CIPHER_DOCSIS_SEC_BPI) by (gen_enums_unfold; lia).
+  rewrite Hcm in Hcr. replace (cipher_rules IMB_CIPHER_DOCSIS_SEC_BPI) with rules_DOCSIS_SEC_BPI in Hcr by reflexivity.
+  unfold rules_ok in Hcr; revert Hcr; open_rules; cbn [forallb]; intros Hcr; cat; unfold MB_MAX_LEN16 in Hcr.
+  open_outside Hout; gen_enums_unfold; open_rules; widths_in W; all_ok.
+Qed.
+
+(* ------------------------------------------------------------------------------------------ *)
+(* the two switches as a whole                                                                 *)
+(* ------------------------------------------------------------------------------------------ *)
+Lemma agree_cons_ok r0 r rs j : holds (r_cond r0) j = true -> agree r rs j -> agree r (r0 :: rs) j.
+Proof.
+  intros H0. destruct r as [e|]; cbn [agree].
+  - apply viol_skip.
+  - intros H Ho. apply ok_cons; [exact H0 | exact (H Ho)].
+Qed.
+
+(* one known enumerator: select the family lemma *)
+Ltac known_cipher j L lem :=
+  let E := fresh "E" in
+  destruct (N.eq_dec (jv_cipher_mode j) L) as [E|?];
+  [ replace (cipher_rules (jv_cipher_mode j)) with (cipher_rules L) by (rewrite E; reflexivity);
+    apply agree_cons_ok;
+    [ cbn [holds r_cond r_common_mode]; rewrite E; reflexivity
+    | first [ apply lem; assumption | apply lem; auto ] ]
+  | ].
+Ltac known_hash j L lem :=
+  let E := fresh "E" in
+  destruct (N.eq_dec (jv_hash_alg j) L) as [E|?];
+  [ replace (hash_rules (jv_hash_alg j)) with (hash_rules L) by (rewrite E; reflexivity);
+    apply agree_cons_ok;
+    [ cbn [holds r_cond r_common_hash]; rewrite E; reflexivity
+    | apply lem; assumption ]
+  | ].
+(* none of the known enumerators: every test of the switch skeleton is false -> default group *)
+Ltac default_group :=
+  gen_enums_unfold;
+  repeat lazymatch goal with
+  | |- agree (if ?c then _ else _) _ _ =>
+      let C := fresh "C" in destruct c eqn:C; [ exfalso; lia | clear C ]
+  end.
+
+Lemma cipher_agree j :
+  well_formed j = true -> dir_ok j ->
+  (jv_cipher_mode j = IMB_CIPHER_ZUC_EEA3 -> disc_D2_key_len_truncated j = false) ->
+  agree (csw j) (r_common_mode :: cipher_rules (jv_cipher_mode j)) j.
+Proof.
+  intros Hwf Hdir Hz.
+  known_cipher j IMB_CIPHER_CBC cfam_CBC.
+  known_cipher j IMB_CIPHER_CBCS_1_9 cfam_CBCS_1_9.
+  known_cipher j IMB_CIPHER_ECB cfam_ECB.
+  known_cipher j IMB_CIPHER_CNTR cfam_CNTR.
+  known_cipher j IMB_CIPHER_CNTR_BITLEN cfam_CNTR_BITLEN.
+  known_cipher j IMB_CIPHER_NULL cfam_NULL.
+  known_cipher j IMB_CIPHER_DOCSIS_SEC_BPI cfam_DOCSIS_SEC_BPI.
+  known_cipher j IMB_CIPHER_GCM cfam_GCM.
+  known_cipher j IMB_CIPHER_GCM_SGL cfam_GCM_SGL.
+  known_cipher j IMB_CIPHER_SM4_GCM cfam_SM4_GCM.
+  known_cipher j IMB_CIPHER_CUSTOM cfam_CUSTOM.
+  known_cipher j IMB_CIPHER_DES cfam_DES.
+  known_cipher j IMB_CIPHER_DOCSIS_DES cfam_DOCSIS_DES.
+  known_cipher j IMB_CIPHER_CCM cfam_CCM.
+  known_cipher j IMB_CIPHER_DES3 cfam_DES3.
+  known_cipher j IMB_CIPHER_PON_AES_CNTR cfam_PON.
+  known_cipher j IMB_CIPHER_SNOW3G_UEA2_BITLEN cfam_SNOW3G_UEA2.
+  known_cipher j IMB_CIPHER_KASUMI_UEA1_BITLEN cfam_KASUMI_UEA1.
+  known_cipher j IMB_CIPHER_CHACHA20 cfam_CHACHA20.
+  known_cipher j IMB_CIPHER_CHACHA20_POLY1305 cfam_CHACHA20_POLY1305.
+  known_cipher j IMB_CIPHER_CHACHA20_POLY1305_SGL cfam_CHACHA20_POLY1305_SGL.
+  known_cipher j IMB_CIPHER_SNOW_V cfam_SNOW_V.
+  known_cipher j IMB_CIPHER_SNOW_V_AEAD cfam_SNOW_V_AEAD.
+  known_cipher j IMB_CIPHER_SM4_ECB cfam_SM4_ECB.
+  known_cipher j IMB_CIPHER_SM4_CBC cfam_SM4_CBC.
+  known_cipher j IMB_CIPHER_SM4_CNTR cfam_SM4_CNTR.
+  known_cipher j IMB_CIPHER_CFB cfam_CFB.
+  known_cipher j IMB_CIPHER_ZUC_EEA3 cfam_ZUC_EEA3.
+  (* unsupported mode *)
+  unfold csw; cbv beta delta [is_job_invalid_sw1].
+  assert (Hn : existsb (N.eqb (jv_cipher_mode j)) (map fst cipher_catalogue) = false).
+  { let l := eval vm_compute in (map fst cipher_catalogue) in change (map fst cipher_catalogue) with l.
+    cbn [existsb]. gen_enums_unfold. lia. }
+  default_group.
+  cbv beta delta [is_job_invalid_sw1_default]. cbn [agree].
+  apply viol_here; [reflexivity | cbn [holds r_cond r_common_mode]; exact Hn].
+Qed.
+
+Lemma hash_agree j :
+  well_formed j = true -> cipher_passed j ->
+  agree (hsw j) (r_common_hash :: hash_rules (jv_hash_alg j)) j.
+Proof.
+  intros Hwf Hc.
+  known_hash j IMB_AUTH_HMAC_SHA_1 hfam_HMAC_SHA_1.
+  known_hash j IMB_AUTH_HMAC_SHA_224 hfam_HMAC_SHA_224.
+  known_hash j IMB_AUTH_HMAC_SHA_256 hfam_HMAC_SHA_256.
+  known_hash j IMB_AUTH_HMAC_SHA_384 hfam_HMAC_SHA_384.
+  known_hash j IMB_AUTH_HMAC_SHA_512 hfam_HMAC_SHA_512.
+  known_hash j IMB_AUTH_AES_XCBC hfam_AES_XCBC.
+  known_hash j IMB_AUTH_MD5 hfam_MD5.
+  known_hash j IMB_AUTH_NULL hfam_NULL.
+  known_hash j IMB_AUTH_AES_GMAC hfam_AES_GMAC.
+  known_hash j IMB_AUTH_CUSTOM hfam_CUSTOM.
+  known_hash j IMB_AUTH_AES_CCM hfam_AES_CCM.
+  known_hash j IMB_AUTH_AES_CMAC hfam_AES_CMAC.
+  known_hash j IMB_AUTH_SHA_1 hfam_SHA_1.
+  known_hash j IMB_AUTH_SHA_224 hfam_SHA_224.
+  known_hash j IMB_AUTH_SHA_256 hfam_SHA_256.
+  known_hash j IMB_AUTH_SHA_384 hfam_SHA_384.
+  known_hash j IMB_AUTH_SHA_512 hfam_SHA_512.
+  known_hash j IMB_AUTH_AES_CMAC_BITLEN hfam_AES_CMAC_BITLEN.
+  known_hash j IMB_AUTH_PON_CRC_BIP hfam_PON_CRC_BIP.
+  known_hash j IMB_AUTH_ZUC_EIA3_BITLEN hfam_ZUC_EIA3_BITLEN.
+  known_hash j IMB_AUTH_DOCSIS_CRC32 hfam_DOCSIS_CRC32.
+  known_hash j IMB_AUTH_SNOW3G_UIA2_BITLEN hfam_SNOW3G_UIA2_BITLEN.
+  known_hash j IMB_AUTH_KASUMI_UIA1 hfam_KASUMI_UIA1.
+  known_hash j IMB_AUTH_AES_GMAC_128 hfam_AES_GMAC_128.
+  known_hash j IMB_AUTH_AES_GMAC_192 hfam_AES_GMAC_192.
+  known_hash j IMB_AUTH_AES_GMAC_256 hfam_AES_GMAC_256.
+  known_hash j IMB_AUTH_AES_CMAC_256 hfam_AES_CMAC_256.
+  known_hash j IMB_AUTH_POLY1305 hfam_POLY1305.
+  known_hash j IMB_AUTH_CHACHA20_POLY1305 hfam_CHACHA20_POLY1305.
+  known_hash j IMB_AUTH_CHACHA20_POLY1305_SGL hfam_CHACHA20_POLY1305_SGL.
+  known_hash j IMB_AUTH_ZUC256_EIA3_BITLEN hfam_ZUC256_EIA3_BITLEN.
+  known_hash j IMB_AUTH_SNOW_V_AEAD hfam_SNOW_V_AEAD.
+  known_hash j IMB_AUTH_GCM_SGL hfam_GCM_SGL.
+  known_hash j IMB_AUTH_CRC32_ETHERNET_FCS hfam_CRC32_ETHERNET_FCS.
+  known_hash j IMB_AUTH_CRC32_SCTP hfam_CRC32_SCTP.
+  known_hash j IMB_AUTH_CRC32_WIMAX_OFDMA_DATA hfam_CRC32_WIMAX_OFDMA_DATA.
+  known_hash j IMB_AUTH_CRC24_LTE_A hfam_CRC24_LTE_A.
+  known_hash j IMB_AUTH_CRC24_LTE_B hfam_CRC24_LTE_B.
+  known_hash j IMB_AUTH_CRC16_X25 hfam_CRC16_X25.
+  known_hash j IMB_AUTH_CRC16_FP_DATA hfam_CRC16_FP_DATA.
+  known_hash j IMB_AUTH_CRC11_FP_HEADER hfam_CRC11_FP_HEADER.
+  known_hash j IMB_AUTH_CRC10_IUUP_DATA hfam_CRC10_IUUP_DATA.
+  known_hash j IMB_AUTH_CRC8_WIMAX_OFDMA_HCS hfam_CRC8_WIMAX_OFDMA_HCS.
+  known_hash j IMB_AUTH_CRC7_FP_HEADER hfam_CRC7_FP_HEADER.
+  known_hash j IMB_AUTH_CRC6_IUUP_HEADER hfam_CRC6_IUUP_HEADER.
+  known_hash j IMB_AUTH_GHASH hfam_GHASH.
+  known_hash j IMB_AUTH_SM3 hfam_SM3.
+  known_hash j IMB_AUTH_HMAC_SM3 hfam_HMAC_SM3.
+  known_hash j IMB_AUTH_SM4_GCM hfam_SM4_GCM.
+  unfold hsw; cbv beta delta [is_job_invalid_sw2].
+  assert (Hn : existsb (N.eqb (jv_hash_alg j)) (map fst hash_catalogue) = false).
+  { let l := eval vm_compute in (map fst hash_catalogue) in change (map fst hash_catalogue) with l.
+    cbn [existsb]. gen_enums_unfold. lia. }
+  default_group.
+  cbv beta delta [is_job_invalid_sw2_default]. cbn [agree].
+  apply viol_here; [reflexivity | cbn [holds r_cond r_common_hash]; exact Hn].
+Qed.
+
+(* ------------------------------------------------------------------------------------------ *)
+(* the whole checker against the whole catalogue                                               *)
+(* ------------------------------------------------------------------------------------------ *)
+Lemma violated_common_dir e j : violated_with e [r_common_dir] j = true -> violated_with e (all_rules j) j = true.
+Proof.
+  intros H. unfold all_rules, common_rules. change [r_common_dir; r_common_mode; r_common_hash] with ([r_common_dir] ++ [r_common_mode; r_common_hash]).
+  rewrite <- app_assoc, violated_app, H. reflexivity.
+Qed.
+Lemma violated_cipher_part e j :
+  violated_with e (r_common_mode :: cipher_rules (jv_cipher_mode j)) j = true -> violated_with e (all_rules j) j = true.
+Proof.
+  unfold all_rules, common_rules, violated_with. cbn [existsb app]. rewrite !existsb_app.
+  intros H. apply orb_true_iff in H. destruct H as [H|H]; rewrite H; rewrite ?orb_true_r; reflexivity.
+Qed.
+Lemma violated_hash_part e j :
+  violated_with e (r_common_hash :: hash_rules (jv_hash_alg j)) j = true -> violated_with e (all_rules j) j = true.
+Proof.
+  unfold all_rules, common_rules, violated_with. cbn [existsb app]. rewrite !existsb_app.
+  intros H. apply orb_true_iff in H. destruct H as [H|H]; rewrite H; rewrite ?orb_true_r; reflexivity.
+Qed.
+Lemma all_rules_ok_intro j :
+  holds (r_cond r_common_dir) j = true ->
+  rules_ok (r_common_mode :: cipher_rules (jv_cipher_mode j)) j = true ->
+  rules_ok (r_common_hash :: hash_rules (jv_hash_alg j)) j = true ->
+  rules_ok (all_rules j) j = true.
+Proof.
+  unfold all_rules, common_rules, rules_ok. cbn [forallb app]. rewrite !forallb_app.
+  intros H1 H2 H3. apply andb_true_iff in H2. destruct H2 as [H2 H2']. apply andb_true_iff in H3. destruct H3 as [H3 H3'].
+  rewrite H1, H2, H2', H3, H3'. reflexivity.
+Qed.
+
+Lemma is_job_invalid_unfold j :
+  is_job_invalid j =
+  oseq (if negb (jv_cipher_direction j =? IMB_DIR_DECRYPT) && negb (jv_cipher_direction j =? IMB_DIR_ENCRYPT) &&
+           negb (jv_cipher_mode j =? IMB_CIPHER_NULL) then Some IMB_ERR_JOB_CIPH_DIR else None)
+       (oseq (csw j) (oseq (hsw j) None)).
+Proof. reflexivity. Qed.
+
+Theorem agree_all j :
+  well_formed j = true ->
+  (jv_cipher_mode j = IMB_CIPHER_ZUC_EEA3 -> disc_D2_key_len_truncated j = false) ->
+  agree (is_job_invalid j) (all_rules j) j.
+Proof.
+  intros Hwf Hz. rewrite is_job_invalid_unfold.
+  destruct (negb (jv_cipher_direction j =? IMB_DIR_DECRYPT) && negb (jv_cipher_direction j =? IMB_DIR_ENCRYPT) &&
+            negb (jv_cipher_mode j =? IMB_CIPHER_NULL)) eqn:Cd.
+  - cbn [oseq agree]. apply violated_common_dir. apply viol_here; [reflexivity|].
+    cbn [holds r_cond r_common_dir existsb]. gen_enums_unfold. lia.
+  - assert (Hdir : dir_ok j) by (unfold dir_ok; gen_enums_unfold; lia).
+    assert (Hdirb : holds (r_cond r_common_dir) j = true) by (cbn [holds r_cond r_common_dir existsb]; gen_enums_unfold; lia).
+    pose proof (cipher_agree j Hwf Hdir Hz) as HC.
+    cbn [oseq]. destruct (csw j) as [e|].
+    + cbn [oseq agree] in *. apply violated_cipher_part. exact HC.
+    + cbn [agree] in HC. cbn [oseq].
+      assert (Hcp : cipher_passed j).
+      { intros Ho. specialize (HC Ho). unfold rules_ok in *. cbn [forallb] in HC. apply andb_true_iff in HC. tauto. }
+      pose proof (hash_agree j Hwf Hcp) as HH.
+      destruct (hsw j) as [e|]; cbn [oseq agree] in *.
+      * apply violated_hash_part. exact HH.
+      * intros Ho. apply all_rules_ok_intro; [exact Hdirb | exact (HC Ho) | exact (HH Ho)].
+Qed.
+
+(* ---- the three property theorems ---- *)
+Theorem validate_complete : forall j, well_formed j = true -> job_ok j = true -> is_job_invalid j = None.
+Proof.
+  intros j Hwf Hok.
+  assert (Hz : jv_cipher_mode j = IMB_CIPHER_ZUC_EEA3 -> disc_D2_key_len_truncated j = false).
+  { intros E. unfold job_ok, all_rules in Hok. rewrite !rules_ok_app in Hok.
+    apply andb_true_iff in Hok. destruct Hok as [_ Hok]. apply andb_true_iff in Hok. destruct Hok as [Hok _].
+    rewrite E in Hok. replace (cipher_rules IMB_CIPHER_ZUC_EEA3) with rules_ZUC_EEA3 in Hok by reflexivity.
+    unfold rules_ok in Hok. revert Hok. open_rules. cbn [forallb]. intros Hok. cat.
+    unfold disc_D2_key_len_truncated. lia. }
+  pose proof (agree_all j Hwf Hz) as HA.
+  destruct (is_job_invalid j) as [e|]; [|reflexivity].
+  cbn [agree] in HA. apply violated_not_ok in HA. unfold job_ok in Hok. congruence.
+Qed.
+
+Theorem validate_errno_names_a_violation_partial : forall j e,
+  well_formed j = true ->
+  (jv_cipher_mode j = IMB_CIPHER_ZUC_EEA3 -> disc_D2_key_len_truncated j = false) ->
+  is_job_invalid j = Some e -> In e (violations j).
+Proof.
+  intros j e Hwf Hz He. pose proof (agree_all j Hwf Hz) as HA. rewrite He in HA. cbn [agree] in HA.
+  apply violated_in. exact HA.
+Qed.
+
+Theorem validate_sound_partial : forall j,
+  well_formed j = true -> outside_known_discrepancies j = true -> is_job_invalid j = None -> job_ok j = true.
+Proof.
+  intros j Hwf Ho Hn.
+  assert (Hz : jv_cipher_mode j = IMB_CIPHER_ZUC_EEA3 -> disc_D2_key_len_truncated j = false).
+  { intros _. unfold outside_known_discrepancies in Ho.
+    repeat (apply andb_true_iff in Ho; destruct Ho as [Ho ?]).
+    repeat match goal with H : negb ?b = true |- ?b = false => apply negb_true_iff in H; exact H end. }
+  pose proof (agree_all j Hwf Hz) as HA. rewrite Hn in HA. cbn [agree] in HA. exact (HA Ho).
+Qed.
+
+(* The unrestricted statements, kept visible; the first and the third are FALSE on the unchanged
+   tree (refuted below by concrete jobs = documentation-vs-code discrepancies D1..D4, D6, D8). *)
+Definition validate_sound_statement : Prop :=
+  forall j, well_formed j = true -> is_job_invalid j = None -> job_ok j = true.
+Definition validate_errno_names_a_violation_statement : Prop :=
+  forall j e, well_formed j = true -> is_job_invalid j = Some e -> In e (violations j).
+
+(* ---- witnesses ---- *)
+Definition ex_valid_cbc_hmac_sha1 : job_view := mk_job_view
+  (* jv_enc_keys *) 17592186048512
+  (* jv_dec_keys *) 17592186056704
+  (* jv_key_len_in_bytes *) 16
+  (* jv_src *) 17592186306560
+  (* jv_dst *) 17592186437632
+  (* jv_cipher_start_src_offset *) 0
+  (* jv_msg_len_to_cipher *) 64
+  (* jv_hash_start_src_offset *) 0
+  (* jv_msg_len_to_hash *) 61
+  (* jv_iv *) 17592186064896
+  (* jv_iv_len_in_bytes *) 16
+  (* jv_auth_tag_output *) 17592186066944
+  (* jv_auth_tag_output_len *) 12
+  (* jv_u0 *) 17592186068992
+  (* jv_u1 *) 17592186077184
+  (* jv_u2 *) 0
+  (* jv_cipher_mode *) 1
+  (* jv_cipher_direction *) 1
+  (* jv_hash_alg *) 1
+  (* jv_chain_order *) 1
+  (* jv_cipher_func *) 0
+  (* jv_hash_func *) 0
+  (* jv_sgl_state *) 0
+  (* jv_next_iv *) 17592186093568
+  (* jv_enc_ks0 *) 17592186097664
+  (* jv_enc_ks1 *) 17592186098176
+  (* jv_enc_ks2 *) 17592186098688
+  (* jv_dec_ks0 *) 17592186099200
+  (* jv_dec_ks1 *) 17592186099712
+  (* jv_dec_ks2 *) 17592186100224
+  (* jv_mem_xgem_hdr *) 13590307137180020736
+  [].
+
+Definition ex_invalid_null_src : job_view := mk_job_view
+  (* jv_enc_keys *) 17592186048512
+  (* jv_dec_keys *) 17592186056704
+  (* jv_key_len_in_bytes *) 16
+  (* jv_src *) 0
+  (* jv_dst *) 17592186437632
+  (* jv_cipher_start_src_offset *) 0
+  (* jv_msg_len_to_cipher *) 64
+  (* jv_hash_start_src_offset *) 0
+  (* jv_msg_len_to_hash *) 61
+  (* jv_iv *) 17592186064896
+  (* jv_iv_len_in_bytes *) 16
+  (* jv_auth_tag_output *) 17592186066944
+  (* jv_auth_tag_output_len *) 12
+  (* jv_u0 *) 17592186068992
+  (* jv_u1 *) 17592186077184
+  (* jv_u2 *) 0
+  (* jv_cipher_mode *) 1
+  (* jv_cipher_direction *) 1
+  (* jv_hash_alg *) 1
+  (* jv_chain_order *) 1
+  (* jv_cipher_func *) 0
+  (* jv_hash_func *) 0
+  (* jv_sgl_state *) 0
+  (* jv_next_iv *) 17592186093568
+  (* jv_enc_ks0 *) 17592186097664
+  (* jv_enc_ks1 *) 17592186098176
+  (* jv_enc_ks2 *) 17592186098688
+  (* jv_dec_ks0 *) 17592186099200
+  (* jv_dec_ks1 *) 17592186099712
+  (* jv_dec_ks2 *) 17592186100224
+  (* jv_mem_xgem_hdr *) 13590307137180020736
+  [].
+
+Definition ex_invalid_len_over_limit : job_view := mk_job_view
+  (* jv_enc_keys *) 17592186048512
+  (* jv_dec_keys *) 17592186056704
+  (* jv_key_len_in_bytes *) 16
+  (* jv_src *) 17592186306560
+  (* jv_dst *) 17592186437632
+  (* jv_cipher_start_src_offset *) 0
+  (* jv_msg_len_to_cipher *) 65552
+  (* jv_hash_start_src_offset *) 0
+  (* jv_msg_len_to_hash *) 61
+  (* jv_iv *) 17592186064896
+  (* jv_iv_len_in_bytes *) 16
+  (* jv_auth_tag_output *) 17592186066944
+  (* jv_auth_tag_output_len *) 12
+  (* jv_u0 *) 17592186068992
+  (* jv_u1 *) 17592186077184
+  (* jv_u2 *) 0
+  (* jv_cipher_mode *) 1
+  (* jv_cipher_direction *) 1
+  (* jv_hash_alg *) 1
+  (* jv_chain_order *) 1
+  (* jv_cipher_func *) 0
+  (* jv_hash_func *) 0
+  (* jv_sgl_state *) 0
+  (* jv_next_iv *) 17592186093568
+  (* jv_enc_ks0 *) 17592186097664
+  (* jv_enc_ks1 *) 17592186098176
+  (* jv_enc_ks2 *) 17592186098688
+  (* jv_dec_ks0 *) 17592186099200
+  (* jv_dec_ks1 *) 17592186099712
+  (* jv_dec_ks2 *) 17592186100224
+  (* jv_mem_xgem_hdr *) 13590307137180020736
+  [].
+
+Definition wit_D1_chacha_pairing : job_view := mk_job_view
+  (* jv_enc_keys *) 17592186048512
+  (* jv_dec_keys *) 17592186056704
+  (* jv_key_len_in_bytes *) 32
+  (* jv_src *) 17592186306560
+  (* jv_dst *) 17592186437632
+  (* jv_cipher_start_src_offset *) 0
+  (* jv_msg_len_to_cipher *) 61
+  (* jv_hash_start_src_offset *) 0
+  (* jv_msg_len_to_hash *) 61
+  (* jv_iv *) 17592186064896
+  (* jv_iv_len_in_bytes *) 12
+  (* jv_auth_tag_output *) 17592186066944
+  (* jv_auth_tag_output_len *) 12
+  (* jv_u0 *) 17592186068992
+  (* jv_u1 *) 17592186077184
+  (* jv_u2 *) 0
+  (* jv_cipher_mode *) 19
+  (* jv_cipher_direction *) 1
+  (* jv_hash_alg *) 1
+  (* jv_chain_order *) 1
+  (* jv_cipher_func *) 0
+  (* jv_hash_func *) 0
+  (* jv_sgl_state *) 0
+  (* jv_next_iv *) 17592186093568
+  (* jv_enc_ks0 *) 17592186097664
+  (* jv_enc_ks1 *) 17592186098176
+  (* jv_enc_ks2 *) 17592186098688
+  (* jv_dec_ks0 *) 17592186099200
+  (* jv_dec_ks1 *) 17592186099712
+  (* jv_dec_ks2 *) 17592186100224
+  (* jv_mem_xgem_hdr *) 13590307137180020736
+  [].
+
+Definition wit_D2_key_len_truncated : job_view := mk_job_view
+  (* jv_enc_keys *) 17592186048512
+  (* jv_dec_keys *) 17592186056704
+  (* jv_key_len_in_bytes *) 4294967312
+  (* jv_src *) 17592186306560
+  (* jv_dst *) 17592186437632
+  (* jv_cipher_start_src_offset *) 0
+  (* jv_msg_len_to_cipher *) 64
+  (* jv_hash_start_src_offset *) 0
+  (* jv_msg_len_to_hash *) 0
+  (* jv_iv *) 17592186064896
+  (* jv_iv_len_in_bytes *) 16
+  (* jv_auth_tag_output *) 17592186066944
+  (* jv_auth_tag_output_len *) 0
+  (* jv_u0 *) 0
+  (* jv_u1 *) 0
+  (* jv_u2 *) 0
+  (* jv_cipher_mode *) 1
+  (* jv_cipher_direction *) 1
+  (* jv_hash_alg *) 8
+  (* jv_chain_order *) 1
+  (* jv_cipher_func *) 0
+  (* jv_hash_func *) 0
+  (* jv_sgl_state *) 0
+  (* jv_next_iv *) 17592186093568
+  (* jv_enc_ks0 *) 17592186097664
+  (* jv_enc_ks1 *) 17592186098176
+  (* jv_enc_ks2 *) 17592186098688
+  (* jv_dec_ks0 *) 17592186099200
+  (* jv_dec_ks1 *) 17592186099712
+  (* jv_dec_ks2 *) 17592186100224
+  (* jv_mem_xgem_hdr *) 13590307137180020736
+  [].
+
+Definition wit_D3_sgl_total_wraps : job_view := mk_job_view
+  (* jv_enc_keys *) 17592186048512
+  (* jv_dec_keys *) 17592186056704
+  (* jv_key_len_in_bytes *) 16
+  (* jv_src *) 17592186105856
+  (* jv_dst *) 3
+  (* jv_cipher_start_src_offset *) 0
+  (* jv_msg_len_to_cipher *) 61
+  (* jv_hash_start_src_offset *) 0
+  (* jv_msg_len_to_hash *) 61
+  (* jv_iv *) 17592186064896
+  (* jv_iv_len_in_bytes *) 12
+  (* jv_auth_tag_output *) 17592186066944
+  (* jv_auth_tag_output_len *) 16
+  (* jv_u0 *) 17592186068992
+  (* jv_u1 *) 12
+  (* jv_u2 *) 17592186085376
+  (* jv_cipher_mode *) 23
+  (* jv_cipher_direction *) 1
+  (* jv_hash_alg *) 33
+  (* jv_chain_order *) 1
+  (* jv_cipher_func *) 0
+  (* jv_hash_func *) 0
+  (* jv_sgl_state *) 3
+  (* jv_next_iv *) 17592186093568
+  (* jv_enc_ks0 *) 17592186097664
+  (* jv_enc_ks1 *) 17592186098176
+  (* jv_enc_ks2 *) 17592186098688
+  (* jv_dec_ks0 *) 17592186099200
+  (* jv_dec_ks1 *) 17592186099712
+  (* jv_dec_ks2 *) 17592186100224
+  (* jv_mem_xgem_hdr *) 13590307137180020736
+  [mk_seg 17592186109952 17592186142720 9223372036854775808; mk_seg 17592186114048 17592186146816 0; mk_seg 17592186118144 17592186150912 9223372036854775808].
+
+Definition wit_D4_cbcs_key_len : job_view := mk_job_view
+  (* jv_enc_keys *) 17592186048512
+  (* jv_dec_keys *) 17592186056704
+  (* jv_key_len_in_bytes *) 32
+  (* jv_src *) 17592186306560
+  (* jv_dst *) 17592186437632
+  (* jv_cipher_start_src_offset *) 0
+  (* jv_msg_len_to_cipher *) 160
+  (* jv_hash_start_src_offset *) 0
+  (* jv_msg_len_to_hash *) 0
+  (* jv_iv *) 17592186064896
+  (* jv_iv_len_in_bytes *) 16
+  (* jv_auth_tag_output *) 17592186066944
+  (* jv_auth_tag_output_len *) 0
+  (* jv_u0 *) 0
+  (* jv_u1 *) 0
+  (* jv_u2 *) 0
+  (* jv_cipher_mode *) 17
+  (* jv_cipher_direction *) 1
+  (* jv_hash_alg *) 8
+  (* jv_chain_order *) 1
+  (* jv_cipher_func *) 0
+  (* jv_hash_func *) 0
+  (* jv_sgl_state *) 0
+  (* jv_next_iv *) 17592186093568
+  (* jv_enc_ks0 *) 17592186097664
+  (* jv_enc_ks1 *) 17592186098176
+  (* jv_enc_ks2 *) 17592186098688
+  (* jv_dec_ks0 *) 17592186099200
+  (* jv_dec_ks1 *) 17592186099712
+  (* jv_dec_ks2 *) 17592186100224
+  (* jv_mem_xgem_hdr *) 13590307137180020736
+  [].
+
+Definition wit_D6_sm4_key_len : job_view := mk_job_view
+  (* jv_enc_keys *) 17592186048512
+  (* jv_dec_keys *) 17592186056704
+  (* jv_key_len_in_bytes *) 32
+  (* jv_src *) 17592186306560
+  (* jv_dst *) 17592186437632
+  (* jv_cipher_start_src_offset *) 0
+  (* jv_msg_len_to_cipher *) 64
+  (* jv_hash_start_src_offset *) 0
+  (* jv_msg_len_to_hash *) 0
+  (* jv_iv *) 17592186064896
+  (* jv_iv_len_in_bytes *) 0
+  (* jv_auth_tag_output *) 17592186066944
+  (* jv_auth_tag_output_len *) 0
+  (* jv_u0 *) 0
+  (* jv_u1 *) 0
+  (* jv_u2 *) 0
+  (* jv_cipher_mode *) 24
+  (* jv_cipher_direction *) 1
+  (* jv_hash_alg *) 8
+  (* jv_chain_order *) 1
+  (* jv_cipher_func *) 0
+  (* jv_hash_func *) 0
+  (* jv_sgl_state *) 0
+  (* jv_next_iv *) 17592186093568
+  (* jv_enc_ks0 *) 17592186097664
+  (* jv_enc_ks1 *) 17592186098176
+  (* jv_enc_ks2 *) 17592186098688
+  (* jv_dec_ks0 *) 17592186099200
+  (* jv_dec_ks1 *) 17592186099712
+  (* jv_dec_ks2 *) 17592186100224
+  (* jv_mem_xgem_hdr *) 13590307137180020736
+  [].
+
+Definition wit_D8_docsis_offset_wraps : job_view := mk_job_view
+  (* jv_enc_keys *) 17592186048512
+  (* jv_dec_keys *) 17592186056704
+  (* jv_key_len_in_bytes *) 16
+  (* jv_src *) 17592186306560
+  (* jv_dst *) 17592186306572
+  (* jv_cipher_start_src_offset *) 12
+  (* jv_msg_len_to_cipher *) 61
+  (* jv_hash_start_src_offset *) 18446744073709551604
+  (* jv_msg_len_to_hash *) 80
+  (* jv_iv *) 17592186064896
+  (* jv_iv_len_in_bytes *) 16
+  (* jv_auth_tag_output *) 17592186066944
+  (* jv_auth_tag_output_len *) 4
+  (* jv_u0 *) 0
+  (* jv_u1 *) 0
+  (* jv_u2 *) 0
+  (* jv_cipher_mode *) 4
+  (* jv_cipher_direction *) 1
+  (* jv_hash_alg *) 21
+  (* jv_chain_order *) 2
+  (* jv_cipher_func *) 0
+  (* jv_hash_func *) 0
+  (* jv_sgl_state *) 0
+  (* jv_next_iv *) 17592186093568
+  (* jv_enc_ks0 *) 17592186097664
+  (* jv_enc_ks1 *) 17592186098176
+  (* jv_enc_ks2 *) 17592186098688
+  (* jv_dec_ks0 *) 17592186099200
+  (* jv_dec_ks1 *) 17592186099712
+  (* jv_dec_ks2 *) 17592186100224
+  (* jv_mem_xgem_hdr *) 13590307137180020736
+  [].
+
+Definition wit_errno_zuc_truncated_key : job_view := mk_job_view
+  (* jv_enc_keys *) 17592186048512
+  (* jv_dec_keys *) 17592186056704
+  (* jv_key_len_in_bytes *) 4294967328
+  (* jv_src *) 17592186306560
+  (* jv_dst *) 17592186437632
+  (* jv_cipher_start_src_offset *) 0
+  (* jv_msg_len_to_cipher *) 61
+  (* jv_hash_start_src_offset *) 0
+  (* jv_msg_len_to_hash *) 0
+  (* jv_iv *) 17592186064896
+  (* jv_iv_len_in_bytes *) 16
+  (* jv_auth_tag_output *) 17592186066944
+  (* jv_auth_tag_output_len *) 0
+  (* jv_u0 *) 0
+  (* jv_u1 *) 0
+  (* jv_u2 *) 0
+  (* jv_cipher_mode *) 14
+  (* jv_cipher_direction *) 1
+  (* jv_hash_alg *) 8
+  (* jv_chain_order *) 1
+  (* jv_cipher_func *) 0
+  (* jv_hash_func *) 0
+  (* jv_sgl_state *) 0
+  (* jv_next_iv *) 17592186093568
+  (* jv_enc_ks0 *) 17592186097664
+  (* jv_enc_ks1 *) 17592186098176
+  (* jv_enc_ks2 *) 17592186098688
+  (* jv_dec_ks0 *) 17592186099200
+  (* jv_dec_ks1 *) 17592186099712
+  (* jv_dec_ks2 *) 17592186100224
+  (* jv_mem_xgem_hdr *) 13590307137180020736
+  [].
+
+Ltac refute_sound w := exists w; vm_compute; repeat split; reflexivity.
+
+Theorem validate_sound_refuted_D1_chacha_pairing :
+  exists j, well_formed j = true /\ is_job_invalid j = None /\ job_ok j = false /\ violations j = [IMB_ERR_HASH_ALGO].
+Proof. refute_sound wit_D1_chacha_pairing. Qed.
+Theorem validate_sound_refuted_D2_key_len_truncated :
+  exists j, well_formed j = true /\ is_job_invalid j = None /\ job_ok j = false /\ violations j = [IMB_ERR_JOB_KEY_LEN].
+Proof. refute_sound wit_D2_key_len_truncated. Qed.
+Theorem validate_sound_refuted_D3_sgl_total_wraps :
+  exists j, well_formed j = true /\ is_job_invalid j = None /\ job_ok j = false /\ violations j = [IMB_ERR_JOB_CIPH_LEN].
+Proof. refute_sound wit_D3_sgl_total_wraps. Qed.
+Theorem validate_sound_refuted_D4_cbcs_key_len :
+  exists j, well_formed j = true /\ is_job_invalid j = None /\ job_ok j = false /\ violations j = [IMB_ERR_JOB_KEY_LEN].
+Proof. refute_sound wit_D4_cbcs_key_len. Qed.
+Theorem validate_sound_refuted_D6_sm4_key_len :
+  exists j, well_formed j = true /\ is_job_invalid j = None /\ job_ok j = false /\ violations j = [IMB_ERR_JOB_KEY_LEN].
+Proof. refute_sound wit_D6_sm4_key_len. Qed.
+Theorem validate_sound_refuted_D8_docsis_offset_wraps :
+  exists j, well_formed j = true /\ is_job_invalid j = None /\ job_ok j = false /\ violations j = [IMB_ERR_JOB_SRC_OFFSET].
+Proof. refute_sound wit_D8_docsis_offset_wraps. Qed.
+Theorem validate_sound_statement_is_false : ~ validate_sound_statement.
+Proof.
+  intros H. specialize (H wit_D1_chacha_pairing). vm_compute in H. specialize (H eq_refl eq_refl). discriminate.
+Qed.
+Theorem validate_errno_refuted_zuc_truncated_key :
+  exists j, well_formed j = true /\ is_job_invalid j = Some IMB_ERR_JOB_IV_LEN /\ violations j = [IMB_ERR_JOB_KEY_LEN].
+Proof. exists wit_errno_zuc_truncated_key. vm_compute. repeat split; reflexivity. Qed.
+Theorem validate_errno_statement_is_false : ~ validate_errno_names_a_violation_statement.
+Proof.
+  intros H. specialize (H wit_errno_zuc_truncated_key IMB_ERR_JOB_IV_LEN). vm_compute in H.
+  specialize (H eq_refl eq_refl). destruct H as [H|[]]. discriminate.
+Qed.
+
+(* ---- the hypotheses are satisfiable ---- *)
+Example valid_cbc_hmac_sha1_is_ok :
+  well_formed ex_valid_cbc_hmac_sha1 = true /\ outside_known_discrepancies ex_valid_cbc_hmac_sha1 = true /\
+  job_ok ex_valid_cbc_hmac_sha1 = true /\ is_job_invalid ex_valid_cbc_hmac_sha1 = None.
+Proof. vm_compute. repeat split; reflexivity. Qed.
+Example null_src_is_rejected :
+  well_formed ex_invalid_null_src = true /\ is_job_invalid ex_invalid_null_src = Some IMB_ERR_JOB_NULL_SRC /\
+  violations ex_invalid_null_src = [IMB_ERR_JOB_NULL_SRC; IMB_ERR_JOB_NULL_SRC].
+Proof. vm_compute. repeat split; reflexivity. Qed.
+Example over_limit_len_is_rejected :
+  well_formed ex_invalid_len_over_limit = true /\ is_job_invalid ex_invalid_len_over_limit = Some IMB_ERR_JOB_CIPH_LEN /\
+  violations ex_invalid_len_over_limit = [IMB_ERR_JOB_CIPH_LEN].
+Proof. vm_compute. repeat split; reflexivity. Qed.
